@@ -633,6 +633,7 @@ def run_entry(owner_name, owner, name, f, argtypes, ret):
                     R.cls("overload_not_reachable")
                     return
                 base = ("raise", tn, [snap(v) for v in vals])
+                base_msg = str(e)
                 res = None
                 # "for every combination of array, scalar and masked-reference arguments": a call that works with plain arrays
                 # must also work when the same elements arrive through masked references of the same length
@@ -655,6 +656,26 @@ def run_entry(owner_name, owner, name, f, argtypes, ret):
                         R.fail("kinds:%s.%s:raises_with_masked_arguments_only" % (owner_name, name), sig=sigtxt, kinds=kk, n=n, exc=tn, msg=str(e)[:200])
             if kk == "p" * len(kk):
                 plain_ok[n] = base[0] == "ok"
+                # a vectorised call that raises although the scalar binding succeeds on EVERY element position is not
+                # "what the scalar binding produces" (a raise is otherwise accepted as the outcome, e.g. normalizeExc on a null element)
+                if base[0] == "raise" and a1pos and name != "__init__":
+                    fr2 = build_args(key, argtypes, n, kinds, ctx)
+                    n_el = len(fr2[a1pos[0]])
+                    every = n_el > 0
+                    for i2 in range(n_el):
+                        ok2, why2, _ = scalar_counterpart(owner_name, owner, name, f, fr2, argtypes, i2)
+                        if not ok2:
+                            every = False
+                            break
+                    R.cls("raised_call_rechecked_against_scalar_binding")
+                    if every:
+                        mm = re.search(r"No to_python \(by-value\) converter found for C\+\+ type: (.*)$", base_msg)
+                        if base[1] == "TypeError" and mm:
+                            # the operation is exported and computes its result, but the result's array type has no Python class
+                            cxx = re.sub(r"\s+", "", mm.group(1).replace("PyImath::", "").replace("Imath_3_2::", ""))
+                            R.fail("elementwise:%s.%s:result_type_not_registered:%s" % (owner_name, name, cxx), sig=sigtxt, kinds=kk, n=n, exc=base[1], msg=base_msg[:200])
+                        else:
+                            R.fail("elementwise:%s.%s:raises_but_scalar_binding_succeeds_on_every_element" % (owner_name, name), sig=sigtxt, kinds=kk, n=n, exc=base[1], msg=base_msg[:200])
             R.ev()
             R.cls("entry_calls")
             R.extra.setdefault("entry_points", {})
